@@ -54,6 +54,10 @@ def _classify(k):
             return ("fallback_missing", True)
     if k[0] == "hasattr" and k[1] == ("instance",):
         return ("override_present", True)
+    if k[0] == "is" and k[1][:1] == ("instance",) and len(k[1]) == 2 and k[2] == ("C", "NoneType", "None"):
+        return ("override_value_is_none", True)
+    if k[0] == "truthy" and k[1][:1] == ("instance",) and len(k[1]) == 2:
+        return ("override_value_truthy", True)
     if k[0] == "lookup_fails":
         return ("target_missing" if k[1] == "target" else "parent_missing", True)
     if k[0] == "pred" and k[1] == "startswith":
@@ -178,7 +182,7 @@ def check(ctx, rep: Report):
             rep.nontrivial.add((meth, tuple(sorted(a.items())), out))
         dom = list(DOMAINS[meth])
         extra = {k for a, _ in rows for k in a} - set(dom) - {"transform_exc_is_attribute_error"}
-        known = {x for d_ in DOMAINS.values() for x in d_}
+        known = {x for d_ in DOMAINS.values() for x in d_} | {"override_value_is_none", "override_value_truthy"}
         dom += sorted(extra & known)
         if extra - known:
             raise AnalysisError(f"C18.T {meth}: conditions outside the modelled protocol: {sorted(extra - known)}")
